@@ -38,7 +38,7 @@ META = {
                   "backend and Connect documents that error handling is the caller's; the spec accepts that outcome for "
                   "that API only (ConnectWithIndication must reach a fallback). Expectations on the resulting server are "
                   "only stated for quiescent points reached by a single request, by rejections only, by successes only, or "
-                  "by a kick only; every quiescent point is checked for one open backend / list consistency. Observations "
+                  "by a kick only, for a player that was connected (and, for failures and kicks, on a server) at the previous quiescent point; every quiescent point is checked for one open backend / list consistency. Calls that never return are counted, not judged (the statement is about safety). Observations "
                   "wait up to 6 s for the proxy to settle; schedules that cannot be forced as given are run to the end "
                   "anyway and judged as the executions they are.",
     "technique": "TLA+ abstract spec + code-shaped model, TLC model checking, TLC schedule export, forced replay on a live "
